@@ -2027,3 +2027,9 @@ M('C14','onvariant-record-shared-by-sources','ds/reactive/set_impl.go',"""	for _
 M('C14','onvariant-record-detach-keeps-subscription','ds/reactive/set_impl.go',"""	i.unsubscribeFromSource()
 
 	i.target.inheritMutations(ds.NewSetMutations""","""	i.target.inheritMutations(ds.NewSetMutations""",'derivedset/unsubscribe-removes', base='C14-17')
+M('C15','notifier-dereg-closes-channel','runtime/valuenotifier/listener.go','''		v.listeners.Delete(value)
+	}
+}''','''		close(valueListeners.channel)
+		v.listeners.Delete(value)
+	}
+}''','notifier/close-means-notified')
